@@ -123,6 +123,11 @@ def gen_case(rng):
                 wrong=[[rng.random() < 0.15 for _ in range(8)]
                        for _ in range(ncyc + 4)],
                 lost=[rng.random() < 0.07 for _ in range(ncyc + 4)],
+                # what a wrong counter looks like: one too many, nobody at
+                # all (terminals off, cable pulled), or (rarely) off by a
+                # whole byte
+                wrong_how=[rng.choice(["+1", "+1", "zero", "zero", "-1",
+                                       "+256"]) for _ in range(ncyc + 4)],
                 restart=rng.random() < 0.35,
                 regroup=rng.random() < 0.5,
                 rseed=rng.getrandbits(32))
@@ -171,7 +176,18 @@ def run_case(case):
             def ov(fno, dno, wkc):
                 # wkc = the number the slaves on the ring really produce
                 true_wkc[dno] = wkc
-                return wkc + 1 if dno > 0 and wrong[(dno - 1) % 8] else wkc
+                if not (dno > 0 and wrong[(dno - 1) % 8]):
+                    return wkc
+                how = case.get("wrong_how", ["+1"])
+                how = how[k % len(how)]
+                hist.setdefault("how", []).append(how)
+                if how == "zero" and wkc:
+                    return 0
+                if how == "-1" and wkc > 1:
+                    return wkc - 1
+                if how == "+256":
+                    return wkc + 256
+                return wkc + 1
             b.wkc_override = ov
             resp = b.process(data)
             b.wkc_override = None
@@ -338,7 +354,7 @@ def check_run(case, hist, res, seg):
         # datagram (what the ring produced before the injected error), not
         # the preset the packet itself carries
         wrongs = sum(1 for rw, tw in zip(c["resp_wkc"], c["true_wkc"])
-                     if tw is not None and (rw & 0xff) != (tw & 0xff))
+                     if tw is not None and rw != tw)
         if n >= 1:
             res.count("cycles_with_wrong_counter" if wrongs
                       else "cycles_all_correct")
